@@ -28,7 +28,7 @@ import (
 
 // request kinds
 type req struct {
-	Kind string  // "connect" | "createStream"
+	Kind string  // "connect" | "createStream" | "bigconnect" (Set Chunk Size 60000 first, then a connect with a 9000-byte tcUrl)
 	Tid  float64 // transaction id
 }
 
@@ -150,6 +150,16 @@ type execData struct {
 
 func writeReq(a *rtmp.Protocol, r req) error {
 	switch r.Kind {
+	case "bigconnect":
+		s := rtmp.NewSetChunkSize()
+		s.ChunkSize = 60000
+		if err := a.WritePacket(s, 0); err != nil {
+			return err
+		}
+		p := rtmp.NewConnectAppPacket()
+		p.CommandObject.Set("app", amf0.NewString("live"))
+		p.CommandObject.Set("tcUrl", amf0.NewString("rtmp://h/live?token="+strings.Repeat("t", 9000)))
+		return a.WritePacket(p, 0)
 	case "connect":
 		p := rtmp.NewConnectAppPacket()
 		p.CommandObject.Set("app", amf0.NewString("live"))
@@ -222,7 +232,7 @@ func judgeRecords(reqs []req, recs []record, wErrs []string, tx string, extraPer
 	}
 	for i, r := range recs {
 		want := "CreateStreamRes"
-		if reqs[i].Kind == "connect" {
+		if reqs[i].Kind == "connect" || reqs[i].Kind == "bigconnect" {
 			want = "ConnectAppRes"
 		}
 		if r.Type != want || r.Tid != reqs[i].Tid {
@@ -301,6 +311,8 @@ func scenarios(c *hl.Ctx) []mc.Scenario {
 		scenario("2-createStream", cs(2, 3), "", unb, false),
 		scenario("connect+createStream", []req{{"connect", 1}, {"createStream", 2}}, "", unb, false),
 		scenario("2-createStream+other-traffic", cs(2, 3), "status-before", unb, true),
+		// a request larger than the writer's buffer after a large chunk size: its last bytes reach the transport before the flush
+		scenario("big-connect-after-set-chunk-size+createStream", []req{{"bigconnect", 1}, {"createStream", 2}}, "", unb, true),
 		scenario("3-createStream", cs(2, 3, 4), "", unb, true),
 	}
 	if c.Thorough() {
